@@ -229,6 +229,9 @@ func (w *World) RunCase(n int, q Q, r *rand.Rand, bigLen int) Line {
 	if o.Rsa == "ok" || o.Hmac == "ok" {
 		names, xs := perturbations(x)
 		for i, y := range xs {
+			if len(x.Body) > 1<<18 && strings.HasPrefix(names[i], "hdr:") && r.Intn(4) != 0 {
+				continue // very large bodies: a seeded quarter of the header perturbations (each one re-hashes the body)
+			}
 			if o.Rsa == "ok" && verifyRSA(y, px.Certs) == "ok" {
 				o.PertR = append(o.PertR, names[i])
 			}
@@ -237,11 +240,26 @@ func (w *World) RunCase(n int, q Q, r *rand.Rand, bigLen int) Line {
 			}
 		}
 	}
-	rv := map[string]interface{}{"method": x.Method, "target": x.Target, "header": x.Header, "body_len": len(x.Body)}
-	if px.CertsErr != "" {
-		rv["certs_error"] = px.CertsErr
+	// the received request is kept in the record only where something is off (the replay re-executes the case anyway)
+	off := o.SessCookie || !o.BodyOK || len(o.PertR) > 0 || len(o.PertH) > 0 || (q.Signer && o.Rsa != "ok") || (q.Hmac && o.Hmac != "ok")
+	for _, s := range o.Others {
+		off = off || s != "ok"
 	}
-	conc.Recv = rv
+	for k, vs := range [][]string{o.Id.User, o.Id.Email, o.Id.Groups, o.Id.Token} {
+		if q.Mode == "auth" && k < 3 && len(vs) != 1 {
+			off = true
+		}
+		for _, v := range vs {
+			off = off || v == "C" || v == "I"
+		}
+	}
+	if off {
+		rv := map[string]interface{}{"method": x.Method, "target": x.Target, "header": x.Header, "body_len": len(x.Body)}
+		if px.CertsErr != "" {
+			rv["certs_error"] = px.CertsErr
+		}
+		conc.Recv = rv
+	}
 	return Line{Case: n, Q: q, Out: o, Conc: conc}
 }
 
@@ -331,7 +349,11 @@ func RunCells(in, out string, seed int64, sample, reps, workers, base int, noshu
 	type job struct{ n, cell int }
 	var jobs []job
 	for _, ci := range idx {
-		for k := 0; k < reps; k++ {
+		n := reps
+		if cells[ci].Q.Body == "big" {
+			n = 1 // 1 MiB bodies: one concretisation
+		}
+		for k := 0; k < n; k++ {
 			jobs = append(jobs, job{base + len(jobs), ci})
 		}
 	}
